@@ -450,7 +450,7 @@ def main():
     # ---- search for a failing input: a model/code disagreement is not by itself a violation of
     # the property, so the property's oracle (Lean, specification side) is applied to the
     # implementation's own outcome on each disagreeing case ----
-    JUDGED = {"ser", "de", "rt", "graph", "schema", "c11"}
+    JUDGED = {"ser", "de", "rt", "graph", "schema", "c11", "skip"}
     todo = []
     for v in violations:
         cmd = v["case"].split(" ", 1)[0]
@@ -458,6 +458,51 @@ def main():
             rtoks = v["rust"].split()
             rest = v["case"].split(" ", 1)[1] if " " in v["case"] else ""
             todo.append((v, f"judge-{cmd} {len(rtoks)} {' '.join(rtoks)} {rest}"))
+    for v in violations:
+        # container writer: what reached the sink (as parsed by the harness's independent parser)
+        # against the content the model writes, which the C15/C16/C17 theorems show is the same for
+        # every write schedule and fault-free history
+        if v["kind"] == "disagreement" and v["case"].startswith("ocfw ") and " ; " in v["rust"] and " ; " in v["model"]:
+            rv = v["rust"].split(" ; ", 1)[1]
+            mv = split_out(v["model"])[0].split(" ; ", 1)[1]
+            rcalls = v["rust"].split(" ; ", 1)[0].split()
+            mcalls = split_out(v["model"])[0].split(" ; ", 1)[0].split()
+            same_results = [c.split("@")[0] for c in rcalls] == [c.split("@")[0] for c in mcalls]
+            if rv != mv and rcalls and (all(c.startswith("ok") for c in rcalls) or (same_results and v["stream"] != "ocfw-sink")):
+                v["kind"] = "oracle"
+                v["detail"] = ("every call returned what the model returns (Ok, or Err for a value that does not fit) but "
+                               "the sink holds other bytes than the content these calls determine (blocks lost, "
+                               "duplicated or damaged, or a rejected value left a trace) | " + v["detail"])
+    for v in violations:
+        if v["kind"] != "disagreement":
+            continue
+        rt = v["rust"].split()
+        if any(t == "panic" or t == "abort" or t.startswith(("panic@", "abort@")) for t in rt):
+            v["kind"] = "oracle"
+            v["detail"] = "the implementation panicked or aborted | " + v["detail"]
+        elif v["case"].startswith("perm ") and v["rust"].count(" | ") == 2:
+            # C13: every presentation of the first group gives the bytes of the first, before and
+            # after the rejected ones
+            a, _b, a2 = [[x.strip() for x in g.split(" ; ")] for g in v["rust"].split(" | ")]
+            if a and a[0].startswith("ok") and any(x != a[0] for x in a + a2):
+                v["kind"] = "oracle"
+                v["detail"] = "record bytes depend on the order / shape in which fields are presented | " + v["detail"]
+        elif v["case"].startswith("single ") and rt[:1] == ["ser"] and len(rt) > 1:
+            # C18: marker C3 01 + little-endian CRC-64-AVRO of the canonical form; the model's
+            # header passed that oracle (computed with the specification's CRC), so a different
+            # header is not the schema's fingerprint
+            mt = split_out(v["model"])[0].split()
+            if mt[:1] == ["ser"] and len(mt) > 1 and rt[1][:20] != mt[1][:20]:
+                v["kind"] = "oracle"
+                v["detail"] = ("the 10-byte header is not C3 01 + the CRC-64-AVRO fingerprint of the schema's "
+                               "canonical form | " + v["detail"])
+        elif v["case"].startswith("reuse "):
+            # C14: after every call, successful or not, every pooled buffer is empty
+            for i, t in enumerate(rt):
+                if t == "pool" and i + 1 < len(rt) and any(x not in ("", "0") for x in rt[i + 1].split(",")):
+                    v["kind"] = "oracle"
+                    v["detail"] = "a call left a non-empty buffer in the configuration's pool | " + v["detail"]
+                    break
     if todo and os.path.exists(DRIVER):
         outs = run_driver([l for _, l in todo])
         for (v, _), o in zip(todo, outs):
